@@ -294,6 +294,9 @@ func c14Max(p *core.Program, r *core.Report) {
 			}
 			return true
 		})
+		if newName == "" && valueParam != nil {
+			newName = valueParam.Name() // the register value compared with the parameter as it is
+		}
 		ps, _ := paths.Enumerate(fi.Decl.Body, paths.Config{Info: info,
 			Cond: func(c ast.Expr, v bool) *paths.Event {
 				return &paths.Event{Kind: "COND", Arg: condKey(info, norm, c, v)}
@@ -694,6 +697,46 @@ func c14Geometry(p *core.Program, r *core.Report) {
 							}
 						}
 					}
+					if v.Op == token.AND || v.Op == token.AND_NOT {
+						// the mask taken from a table of in-place register masks (slotMask[slot], or the
+						// range variable of a loop over that table): entry k is wantMask << (REGISTER_SIZE*k)
+						for _, side := range []ast.Expr{v.X, v.Y} {
+							side = stripConvs(info, side)
+							var tbl ast.Expr
+							var index ast.Expr
+							switch sv := side.(type) {
+							case *ast.IndexExpr:
+								tbl, index = sv.X, sv.Index
+							case *ast.Ident:
+								if rx := rangeSourceOf(info, fi.Decl.Body, sv); rx != nil {
+									tbl = rx
+								}
+							}
+							if tbl == nil {
+								continue
+							}
+							vals, ok := stableTable(info, tbl)
+							if !ok || int64(len(vals)) != lw {
+								continue
+							}
+							good := true
+							for k, x := range vals {
+								if x != wantMask<<uint(rs*int64(k)) {
+									good = false
+								}
+							}
+							masks++
+							shifts++
+							if !good {
+								probs = append(probs, fmt.Sprintf("the mask table `%s` is not %#x shifted to each of the %d register slots", stripSpaces(types.ExprString(tbl)), wantMask, lw))
+							}
+							if index != nil {
+								if f, ok := lf.eval(index, 0); !ok || !f.is(map[string]int64{"R": 1}) {
+									probs = append(probs, "mask table index "+stripSpaces(types.ExprString(index))+" is not position mod LOG2_BITS_PER_WORD")
+								}
+							}
+						}
+					}
 				}
 				return true
 			})
@@ -742,6 +785,14 @@ func c14Geometry(p *core.Program, r *core.Report) {
 					okLoop = true // j < L ; the shift amount is checked as R*j below
 				case step == rs && bv == rs*lw:
 					okLoop = true // the loop variable is the shift itself
+				}
+				return true
+			})
+			ast.Inspect(fi.Decl.Body, func(n ast.Node) bool {
+				if rg, ok := n.(*ast.RangeStmt); ok {
+					if vals, ok := stableTable(info, rg.X); ok && int64(len(vals)) == lw {
+						okLoop = true // one iteration per entry of the register mask table (entries judged above)
+					}
 				}
 				return true
 			})
@@ -849,6 +900,31 @@ func (l *linForm) eval(e ast.Expr, depth int) (lform, bool) {
 		return lform{"": v}, true
 	}
 	switch v := e.(type) {
+	case *ast.IndexExpr:
+		// a look-up in a constant table whose entries are a + b*k (slotShift[slot]) is a + b*index
+		if vals, ok := stableTable(l.info, v.X); ok && len(vals) >= 2 {
+			a, b := vals[0], vals[1]-vals[0]
+			prog := true
+			for k, x := range vals {
+				if x != a+b*int64(k) {
+					prog = false
+				}
+			}
+			if f, ok := l.eval(v.Index, depth+1); ok && prog {
+				// the index must stay inside the table: a register slot R (0 <= R < L <= len) or a constant
+				inside := false
+				if c, isC := f.constant(); isC {
+					inside = c >= 0 && c < int64(len(vals))
+				} else if f.is(map[string]int64{"R": 1}) {
+					inside = l.L <= int64(len(vals))
+				} else if f.singleVarTimes(1) {
+					inside = true // a loop variable: its range is the loop rule's business
+				}
+				if inside {
+					return f.scale(b).plus(lform{"": a}, 1), true
+				}
+			}
+		}
 	case *ast.CallExpr:
 		if rs := helperResults(curProg, l.info, v); len(rs) == 1 {
 			return l.eval(rs[0], depth+1)
@@ -978,7 +1054,40 @@ func c14Index(p *core.Program, r *core.Report) {
 		// index: hash >> (W - log2m), W the width of the hash
 		idxOK := false
 		rankOK := false
+		// the method's body and the bodies of the package helpers it calls with the arguments in place
+		// (indexAndRank(uint64(h), 32, this.log2m) reads as written here for a 32-bit hash)
+		bodies := []*ast.BlockStmt{fi.Decl.Body}
 		ast.Inspect(fi.Decl.Body, func(n ast.Node) bool {
+			call, ok := n.(*ast.CallExpr)
+			if !ok {
+				return true
+			}
+			fn := calleeFunc(info, call)
+			if fn == nil || fn.Pkg() != fi.Obj.Pkg() {
+				return true
+			}
+			hf := p.FuncOf(fn)
+			if hf == nil || hf.Decl.Body == nil || hf.Decl.Recv != nil || hf == fi {
+				return true
+			}
+			repl := map[types.Object]ast.Expr{}
+			k := 0
+			for _, f := range hf.Decl.Type.Params.List {
+				for _, nm := range f.Names {
+					if k < len(call.Args) {
+						repl[hf.Pkg.TypesInfo.Defs[nm]] = call.Args[k]
+					}
+					k++
+				}
+			}
+			if b, ok := paths.Subst(info, hf.Decl.Body, repl).(*ast.BlockStmt); ok {
+				bodies = append(bodies, b)
+			}
+			return true
+		})
+		for _, body := range bodies {
+		body := body
+		ast.Inspect(body, func(n ast.Node) bool {
 			switch v := n.(type) {
 			case *ast.BinaryExpr:
 				if v.Op == token.SHR && isHash(v.X) {
@@ -997,7 +1106,7 @@ func c14Index(p *core.Program, r *core.Report) {
 				}
 				// argument contains (hash << log2m) and the guard bit 1 << (log2m - 1), or-ed
 				hasShift, hasGuard, hasOr := false, false, false
-				ast.Inspect(expandLocals(info, fi.Decl.Body, v.Args[0]), func(m ast.Node) bool {
+				ast.Inspect(expandLocals(info, body, v.Args[0]), func(m ast.Node) bool {
 					be, ok := m.(*ast.BinaryExpr)
 					if !ok {
 						return true
@@ -1025,6 +1134,7 @@ func c14Index(p *core.Program, r *core.Report) {
 			}
 			return true
 		})
+		}
 		if !idxOK {
 			probs = append(probs, fmt.Sprintf("the register index is not the top log2m bits of the hash (hash >> (%d - log2m))", w))
 		}
@@ -1192,6 +1302,7 @@ func c14HashWidth(p *core.Program, r *core.Report) {
 	}
 	// functions extracting top bits of a parameter: p >> (K - x)
 	topBits := map[*types.Func]int{} // -> parameter index
+	widthParam := map[*types.Func]int{} // -> index of the parameter that is the hash width K (when K is not a constant)
 	for _, fi := range p.Funcs {
 		if fi.Pkg != pk || fi.Decl.Body == nil || fi.Decl.Type.Params == nil {
 			continue
@@ -1206,8 +1317,16 @@ func c14HashWidth(p *core.Program, r *core.Report) {
 			if !ok || sub.Op != token.SUB {
 				return true
 			}
+			wp := -1
 			if _, isConst := constIntOf(info, sub.X); !isConst {
-				return true
+				// the width handed in as a parameter (one routine for 32- and 64-bit hashes)
+				wid, ok := ast.Unparen(stripConvs(info, sub.X)).(*ast.Ident)
+				if !ok {
+					return true
+				}
+				if wp = paramIndex(fi, info.ObjectOf(wid)); wp < 0 {
+					return true
+				}
 			}
 			id, ok := ast.Unparen(stripConvs(info, be.X)).(*ast.Ident)
 			if !ok {
@@ -1215,6 +1334,9 @@ func c14HashWidth(p *core.Program, r *core.Report) {
 			}
 			if pi := paramIndex(fi, info.ObjectOf(id)); pi >= 0 {
 				topBits[fi.Obj] = pi
+				if wp >= 0 {
+					widthParam[fi.Obj] = wp
+				}
 			}
 			return true
 		})
@@ -1239,6 +1361,28 @@ func c14HashWidth(p *core.Program, r *core.Report) {
 			}
 			calls++
 			arg := ast.Unparen(call.Args[pi])
+			if wpi, hasW := widthParam[fn]; hasW {
+				// the routine is told the width: it must be the width the hash had before any widening
+				sizes := types.SizesFor("gc", "amd64")
+				src := arg
+				if conv, ok := arg.(*ast.CallExpr); ok && len(conv.Args) == 1 {
+					if tv, ok := info.Types[conv.Fun]; ok && tv.IsType() {
+						src = conv.Args[0]
+					}
+				}
+				wv, isC := int64(0), false
+				if wpi < len(call.Args) {
+					wv, isC = constIntOf(info, call.Args[wpi])
+				}
+				st := info.TypeOf(src)
+				switch {
+				case !isC:
+					probs = append(probs, fmt.Sprintf("%s: the hash width handed to %s is not a constant", p.Pos(call.Pos()), fn.Name()))
+				case st == nil || 8*sizes.Sizeof(st) != wv:
+					probs = append(probs, fmt.Sprintf("%s: %s is told the hash has %d bits but `%s` is a %d-bit value: it addresses registers by bits the hash does not have", p.Pos(call.Pos()), fn.Name(), wv, types.ExprString(src), 8*sizes.Sizeof(st)))
+				}
+				return true
+			}
 			if conv, ok := arg.(*ast.CallExpr); ok && len(conv.Args) == 1 {
 				if tv, ok := info.Types[conv.Fun]; ok && tv.IsType() {
 					from, to := info.TypeOf(conv.Args[0]), tv.Type
@@ -1375,4 +1519,42 @@ func c14OfferPure(p *core.Program, r *core.Report) {
 	}
 	sort.Strings(probs)
 	fileProbs(r, "C14.offer-pure", "util/hll.(*HyperLogLog).Offer*", p.Pos(offers[0].Decl.Pos()), probs, fmt.Sprintf("%d offering methods branch on no field they assign", len(offers)))
+}
+
+// stableTable: the values of a package-level integer array/slice that nothing in the module assigns
+// after its initialisation, evaluated from the initialiser.
+func stableTable(info *types.Info, e ast.Expr) ([]int64, bool) {
+	id, ok := ast.Unparen(e).(*ast.Ident)
+	if !ok || curProg == nil {
+		return nil, false
+	}
+	v, ok := info.ObjectOf(id).(*types.Var)
+	if !ok || v.Pkg() == nil || v.Parent() != v.Pkg().Scope() {
+		return nil, false
+	}
+	ce := &constEvaluator{p: curProg}
+	fi := ce.anyFuncOf(v.Pkg())
+	if fi == nil || !ce.pkgVarStable(v) {
+		return nil, false
+	}
+	val, ok := ce.evalPkgVar(fi, v)
+	if !ok || val == nil || val.k != 'a' {
+		return nil, false
+	}
+	return val.arr, true
+}
+
+// rangeSourceOf: id is the value variable of a `for _, id := range X` in body; returns X.
+func rangeSourceOf(info *types.Info, body *ast.BlockStmt, id *ast.Ident) ast.Expr {
+	obj := info.ObjectOf(id)
+	var out ast.Expr
+	ast.Inspect(body, func(n ast.Node) bool {
+		if rg, ok := n.(*ast.RangeStmt); ok && rg.Value != nil {
+			if vid, ok := rg.Value.(*ast.Ident); ok && info.ObjectOf(vid) == obj {
+				out = rg.X
+			}
+		}
+		return true
+	})
+	return out
 }
